@@ -16,7 +16,8 @@ Two evaluators over the same structure:
 import itertools
 import smt as S
 from smt import AND, OR, NOT, EQ, CMP
-from encode import Row, tup_eq, distinct, subset, named, agg_value, Unsupported, MAX_ROWS
+import encode as _E
+from encode import Row, tup_eq, distinct, subset, named, agg_value, Unsupported
 
 OPS = {"=": "Eq", "!=": "Ne", "<": "Lt", "<=": "Le", ">": "Gt", ">=": "Ge"}
 
@@ -25,17 +26,23 @@ OPS = {"=": "Eq", "!=": "Ne", "<": "Lt", "<=": "Le", ">": "Gt", ">=": "Ge"}
 # text rendering (engine syntax: one clause per line, no trailing '.', last clause = query)
 # ---------------------------------------------------------------------------------------
 
+def _sname(code):
+    return '"k%03d"' % (code + 500)
+
+
 def r_expr(e, top=True):
     if e[0] == "var":
         return e[1]
     if e[0] == "const":
         return str(e[1])
+    if e[0] == "sconst":
+        return _sname(e[1])
     s = f"{r_expr(e[2], False)} {e[1]} {r_expr(e[3], False)}"
     return s if top else f"({s})"
 
 
 def r_aterm(t):
-    return {"var": lambda: t[1], "const": lambda: str(t[1]), "wild": lambda: "_"}[t[0]]()
+    return {"var": lambda: t[1], "const": lambda: str(t[1]), "sconst": lambda: _sname(t[1]), "wild": lambda: "_"}[t[0]]()
 
 
 def r_hterm(t):
@@ -43,6 +50,8 @@ def r_hterm(t):
         return t[1]
     if t[0] == "const":
         return str(t[1])
+    if t[0] == "sconst":
+        return _sname(t[1])
     if t[0] == "agg":
         return f"{t[1]}<{t[2]}>"
     return r_expr(t[1])
@@ -156,7 +165,7 @@ def sccs(program):
 def eval_expr_sym(e, bind):
     if e[0] == "var":
         return bind[e[1]]
-    if e[0] == "const":
+    if e[0] in ("const", "sconst"):
         return e[1]
     a, b = eval_expr_sym(e[2], bind), eval_expr_sym(e[3], bind)
     return {"+": S.ADD, "-": S.SUB, "*": S.MUL}[e[1]](a, b)
@@ -171,7 +180,7 @@ def rule_rows_sym(rule, tables):
     size = 1
     for l_ in lists:
         size *= max(1, len(l_))
-    if size > MAX_ROWS:
+    if size > _E.MAX_ROWS:
         raise Unsupported(f"table too large ({size} rows)")
     for combo in itertools.product(*lists):
         cond = []
@@ -188,7 +197,7 @@ def rule_rows_sym(rule, tables):
                         cond.append(EQ(bind[t[1]], v))
                     else:
                         bind[t[1]] = v
-                elif t[0] == "const":
+                elif t[0] in ("const", "sconst"):
                     cond.append(EQ(v, t[1]))
         if not ok:
             continue
@@ -221,7 +230,7 @@ def rule_rows_sym(rule, tables):
                     for t, v in zip(l[2], r.c):
                         if t[0] == "var":
                             m.append(EQ(bind[t[1]], v))
-                        elif t[0] == "const":
+                        elif t[0] in ("const", "sconst"):
                             m.append(EQ(v, t[1]))
                     hits.append(AND(*m))
                 cond.append(NOT(OR(*hits)))
@@ -238,7 +247,7 @@ def head_rows_sym(rule, tables):
     def plain(t, bind):
         if t[0] == "var":
             return bind[t[1]]
-        if t[0] == "const":
+        if t[0] in ("const", "sconst"):
             return t[1]
         return S.name_int(eval_expr_sym(t[1], bind))
     if not any(t[0] == "agg" for t in hargs):
@@ -304,7 +313,7 @@ def model_sym(program, edb, k):
 def eval_expr_c(e, bind):
     if e[0] == "var":
         return bind[e[1]]
-    if e[0] == "const":
+    if e[0] in ("const", "sconst"):
         return e[1]
     a, b = eval_expr_c(e[2], bind), eval_expr_c(e[3], bind)
     return {"+": a + b, "-": a - b, "*": a * b}[e[1]]
@@ -332,7 +341,7 @@ def valuations_c(rule, tables):
                         ok = False
                         break
                     bind[t[1]] = v
-                elif t[0] == "const":
+                elif t[0] in ("const", "sconst"):
                     if v != t[1]:
                         ok = False
                         break
@@ -365,7 +374,7 @@ def valuations_c(rule, tables):
                 for row in tables.get(l[1], set()):
                     if len(row) != len(l[2]):
                         continue
-                    if all((t[0] == "wild") or (t[0] == "const" and v == t[1]) or (t[0] == "var" and bind[t[1]] == v)
+                    if all((t[0] == "wild") or (t[0] in ("const", "sconst") and v == t[1]) or (t[0] == "var" and bind[t[1]] == v)
                            for t, v in zip(l[2], row)):
                         ok = False
                         break
@@ -383,7 +392,7 @@ def head_rows_c(rule, tables):
     hargs = rule["head"][1]
 
     def plain(t, b):
-        return b[t[1]] if t[0] == "var" else (t[1] if t[0] == "const" else eval_expr_c(t[1], b))
+        return b[t[1]] if t[0] == "var" else (t[1] if t[0] in ("const", "sconst") else eval_expr_c(t[1], b))
     if not any(t[0] == "agg" for t in hargs):
         return {tuple(plain(t, b) for t in hargs) for b in vals}
     groups = {}
